@@ -10,7 +10,12 @@ pub uninterp spec fn guid_draw(g: GUID) -> int;
 impl GUID {
     /// a fresh random GUID (assumption: uuid::Uuid::new_v4 draws are pairwise distinct)
     #[verifier::external_body] pub fn new() -> (r: GUID) { unimplemented!() }
+    /// GUID::new() with a ghost tag: how many HTTP exchanges the machine had made when the GUID was drawn.
+    /// guid_epoch is a function of the GUID value, so the tag is consistent exactly under the stated
+    /// assumption that draws never repeat (two draws at different epochs are different GUIDs).
+    #[verifier::external_body] pub fn vx_new(Ghost(epoch): Ghost<nat>) -> (r: GUID) ensures guid_epoch(r) == epoch { unimplemented!() }
 }
+pub uninterp spec fn guid_epoch(g: GUID) -> nat;
 #[verifier::external_body] pub struct RequestBuilder<'a> { _p: core::marker::PhantomData<&'a u8> }
 /// the builder view a wire message was built from
 pub uninterp spec fn msg_view(m: HttpRequestMsg) -> BuilderView;
